@@ -573,6 +573,21 @@ class Registry:
         if not ops.has_sym(args):
             return uf.fn(*args)
         apps = p.uf_apps.setdefault(uf.name, [])
+        # inverse law: G(shared.., F(shared.., x)) == x
+        if uf.inverse_of is not None:
+            fwd, shared, payload = uf.inverse_of
+            for (a2, r2) in p.uf_apps.get(fwd, []):
+                if r2 is args[payload] or _syn_eq(r2, args[payload]):
+                    ok = True
+                    for i in shared:
+                        if not _syn_eq(a2[i], args[i]):
+                            t = ops.eq_term(p, a2[i], args[i])
+                            if t is not True and not (t is not False and p.entails(t)):
+                                ok = False
+                                break
+                    if ok:
+                        p.assumption_ids.add(f"law:{uf.name}({fwd}(x))==x")
+                        return a2[payload]
         # syntactic reuse
         for (a2, r2) in apps:
             if len(a2) == len(args) and all(_syn_eq(x, y) for x, y in zip(a2, args)):
